@@ -336,6 +336,12 @@ type vVarJob struct {
 	Inserts  [][]int `json:"inserts"` // undecodable sets to insert
 	Truncate bool    `json:"truncate"`
 	TruncIns []int   `json:"trunc_inserts"` // indices of inserts whose variants are also cut at every octet
+	PIns     []vPIns `json:"pinserts"`      // sets inserted at one given position only
+}
+
+type vPIns struct {
+	Pos int   `json:"pos"`
+	Set []int `json:"set"`
 }
 
 type vObs struct {
@@ -352,6 +358,7 @@ type vVarRes struct {
 	Trunc []vObs   `json:"trunc"` // [offset 0..len]
 	// [position][k-th entry of trunc_inserts][offset 0..len]: cuts of the message WITH the inserted set
 	InsTrunc [][][]vObs `json:"ins_trunc"`
+	PIns     []vObs     `json:"pins"` // one per entry of pinserts
 }
 
 func vDigest(rec []vField) string {
@@ -446,6 +453,14 @@ func TestVerifNF9Variants(t *testing.T) {
 				trow = append(trow, cuts)
 			}
 			res.InsTrunc = append(res.InsTrunc, trow)
+		}
+		res.PIns = []vObs{}
+		for _, pi := range job.PIns {
+			if pi.Pos < 0 || pi.Pos > len(job.Sets) {
+				continue
+			}
+			sets := append(append(append([][]int{}, job.Sets[:pi.Pos]...), pi.Set), job.Sets[pi.Pos:]...)
+			res.PIns = append(res.PIns, vObserve(job.Exp, job.Hist, vAssemble(job.Hdr, sets)))
 		}
 		if job.Truncate {
 			for k := 0; k <= len(full); k++ {
